@@ -519,6 +519,11 @@ def check_extra(case, ctx):
         obj = ConstantMode(q=case['q'], **case['vals'])
         v = case['vals']
         ctx.close('C01.extra/ConstantMode:q', obj.get_q(), case['q'], rtol=0)
+        # documented defaults: q = 1, everything else 0
+        blank = ConstantMode()
+        if blank.get_q() != 1 or any(gen.call(getattr(blank, g_), T=T) != 0 for g_ in (
+                'get_CvoR', 'get_CpoR', 'get_SoR', 'get_UoRT', 'get_HoRT', 'get_FoRT', 'get_GoRT')):
+            ctx.fail('C01.extra/ConstantMode:defaults', 'a ConstantMode() without arguments is not neutral')
         for name, key, withT in (('get_CvoR', 'Cv', False), ('get_CpoR', 'Cp', False), ('get_SoR', 'S', False),
                                  ('get_UoRT', 'U', True), ('get_HoRT', 'H', True), ('get_FoRT', 'F', True), ('get_GoRT', 'G', True)):
             got = gen.call(getattr(obj, name), T=T)
